@@ -61,7 +61,7 @@ CLAIMS = {
             'decides losslessness ingredients and checksum agreement; idempotence of normalisation as a whole is not decided; '
             'semantics of re as in re._parser'),
     'C19': ('regex language inclusion both ways against the RS274 number grammar, tokeniser progress automaton, abstract '
-            'interpretation of parameterItems (order, upper-casing, float conversion, offset chaining), last-wins of '
+            'interpretation of parameterItems (order, upper-casing, float conversion, offset chaining, every matched word yielded), last-wins of '
             'parameterDict, dependence analysis letter -> tracked quantity over all handler paths, last-wins for repeated words, '
             'insensitivity of every handler to the trailing string-argument item of parameterItems; freshness of the shared parser '
             '(every reader attribute, the cached word map included, re-assigned by parse: C18.R5 as premise)',
